@@ -84,6 +84,19 @@ OrderCases(shape) ==
             LET attrs == <<AIs("axes", <<axis>>), AI("keepdims", 0)>> s == SemReduce(op, Xr, attrs) IN
             P(CaseRec("order", op, attrs, <<MapRank(Xr)>>, [s EXCEPT !.value = <<MapRank(s.value[1])>>], <<Tag(s), dt, "extreme_magnitudes">>))
 
+\* tiling law (Outcome.tla): reductions and normalisations along an inner axis treat the rows of the leading axis independently
+TileEmit(op, attrs, X, a, Sem(_), known) ==
+   TileLaw(Sem, <<X>>, {1}) => P([CaseRec("tile", op, attrs, <<X>>, a, <<"value", "tile_law">>) EXCEPT !.known = known] @@ [tile |-> TileField({1})])
+TileReduceCases ==
+   /\ \A sh \in {<<3, 4>>, <<3, 2, 3>>} : \A kd \in {0, 1} : \A axis \in {1, -1} :
+         LET X == Ties("f32", sh) D == Dist("f32", sh)
+             aa == <<AI("axis", axis), AI("keepdims", kd)>> ra == <<AIs("axes", <<axis>>), AI("keepdims", kd)>> IN
+         /\ TileEmit("ArgMax", aa, X, SemArgMax(X, aa), LAMBDA ins : SemArgMax(ins[1], aa), <<>>)
+         /\ \A op \in {"ReduceMax", "ReduceMin"} : TileEmit(op, ra, D, SemReduce(op, D, ra), LAMBDA ins : SemReduce(op, ins[1], ra), <<>>)
+   /\ \A sh \in {<<3, 4>>, <<3, 2, 3>>} : \A op \in {"Softmax", "LogSoftmax"} :
+         LET X == SoftX("f32", sh, 1, 2) attrs == <<AI("axis", 1)>> IN
+         TileEmit(op, attrs, X, SemSoftmax(op, X, attrs), LAMBDA ins : SemSoftmax(op, ins[1], attrs), KnownSoftmax(op, X, attrs))
+
 \* an axis at the edge of the 64-bit range is out of range for every tensor
 ExtremeAxisCases(shape) ==
    \A k \in 1..Len(ExtremeI64) : LET e == ExtremeI64[k] X == Dist("f32", shape) IN
@@ -112,7 +125,7 @@ Init ==
    \/ ("softmax" \in Fams /\ st \in [fam : {"softmax"}, op : {"Softmax", "LogSoftmax"}, shape : Shapes, done : {FALSE}])
 Emit ==
    /\ ~st.done
-   /\ CASE st.fam = "long" -> LongCases(st.shape)
+   /\ CASE st.fam = "long" -> LongCases(st.shape) /\ (st.shape[1] = 2 => TileReduceCases)
         [] st.fam = "argmax" -> ArgMaxCases(st.shape) /\ (Len(st.shape) = 2 => ArgMaxDt(st.shape)) /\ (Len(st.shape) <= 2 /\ st.shape[1] = 2 => ExtremeAxisCases(st.shape)) /\ (Len(st.shape) \in {2, 3} /\ st.shape[1] = 3 => OrderCases(st.shape))
         [] st.fam = "reduce" -> ReduceCases(st.op, st.shape) /\ (Len(st.shape) = 2 => ReduceDt(st.op, st.shape))
         [] st.fam = "softmax" -> SoftCases(st.op, st.shape) /\ (st.op = "Softmax" => HugeCases(st.shape))
